@@ -30,7 +30,7 @@ def obs_class(obs):
     return obs if obs.startswith("state:") else obs.split(":")[0]
 
 
-def first_diff(sa, sb, fa, fb, off=0, tol=R.TOL, resumed=False):
+def first_diff(sa, sb, fa, fb, off=0, tol=R.TOL, resumed=False, tf_lagged=False):
     """first difference between step lists sa[off:] and sb, then between final state files; (t, (obs, a, b)) or None"""
     for j, b in enumerate(sb):
         if off + j >= len(sa):
@@ -38,6 +38,11 @@ def first_diff(sa, sb, fa, fb, off=0, tol=R.TOL, resumed=False):
         dd = R.diff_blocks(sa[off + j], b, tol)
         if dd and resumed and j == 0 and dd[0].startswith("log") and not b["log"]:
             dd = None    # lines written while step K was first executed belong to the stopped run: not expected again
+        if dd and resumed and j == 0 and dd[0].startswith("tf") and tf_lagged:
+            # the total force of the previous step is not available to an engine restarted at this step:
+            # compare everything else of the step
+            b2 = dict(b); a2 = dict(sa[off + j]); b2.pop("tf"); a2.pop("tf")
+            dd = R.diff_blocks(a2, b2, tol)
         if dd:
             return (off + j, dd)
     if len(sa) - off != len(sb):
@@ -100,7 +105,7 @@ def judge(c, d, out, rc, err):
                     % (fmt, it0 + K, "at step %d" % (it0 + t) if t is not None else "in the final state", obs, y, x),
                     K, fmt, t=t, obs=obs)
             # B = A
-            dd = first_diff(A["steps"], B["steps"], fA, fB, off=K, resumed=True)
+            dd = first_diff(A["steps"], B["steps"], fA, fB, off=K, resumed=True, tf_lagged=c.get("tf_lagged", False))
             if dd:
                 t, (obs, x, y) = dd
                 when = "final" if t is None else ("at-restart-step" if t == K else "after")
